@@ -613,6 +613,16 @@ func wlCompat(g *hx.Gen, k int) workload {
 		leafProps := map[string]*schema.PropertySchema{}
 		for i := 0; i < width; i++ {
 			var t schema.Type = schema.NewIntSchema(nil, nil, nil)
+			if i == 3 || i == 6 {
+				// numbers with units, every schema value with a definition of its own (equal definitions, distinct
+				// values: what two rebuilt schemas hold); the definitions fill their parser state lazily
+				t = schema.NewIntSchema(nil, nil, schema.NewUnits(schema.NewUnit("B", "B", "byte", "bytes"), map[int64]*schema.UnitDefinition{
+					1024: schema.NewUnit("kB", "kB", "kilobyte", "kilobytes"), 1048576: schema.NewUnit("MB", "MB", "megabyte", "megabytes")}))
+			}
+			if i == 9 {
+				t = schema.NewFloatSchema(nil, nil, schema.NewUnits(schema.NewUnit("s", "s", "second", "seconds"), map[int64]*schema.UnitDefinition{
+					60: schema.NewUnit("m", "m", "minute", "minutes")}))
+			}
 			if i%3 == 1 {
 				t = schema.NewStringSchema(nil, nil, nil)
 			}
@@ -641,21 +651,62 @@ func wlCompat(g *hx.Gen, k int) workload {
 			}),
 			schema.NewObjectSchema("leaf", leafProps))
 	}
+	builds := 0
 	return workload{kind: "compat", build: func() ([]thunk, error) {
+		builds++
+		// the reference is the verdict the declarations give (equal and default-only variants are compatible,
+		// the two retyped ones are not), not a second run: state left behind by parsing through one of two equal
+		// schema values would show in both runs alike
+		reference := builds%2 == 0
 		shared := mk(0)
 		others := []*schema.ScopeSchema{mk(0), mk(1), mk(2), mk(3)}
+		want := func(kind int) string {
+			if kind == 1 || kind == 2 {
+				return "C:err"
+			}
+			return "C:ok"
+		}
 		var ts []thunk
 		for i := 0; i < k; i++ {
-			o := others[kinds[i]]
+			kind := kinds[i]
+			o := others[kind]
+			if i%4 == 3 {
+				// use one side only: numbers written with units go through the lazily built parser of that value
+				target := shared
+				if i%8 == 7 {
+					target = o
+				}
+				ts = append(ts, thunk{"compat.use", func() string {
+					if reference {
+						return "U:ok"
+					}
+					_, err := target.Unserialize(map[string]any{"right": []any{map[string]any{"f03": "2kB", "f06": "1MB 5B"}}})
+					return "U:" + class(err)
+				}})
+				continue
+			}
 			switch i % 3 {
 			case 0:
-				ts = append(ts, thunk{"compat.scope", func() string { return "C:" + class(shared.ValidateCompatibility(o)) }})
+				ts = append(ts, thunk{"compat.scope", func() string {
+					if reference {
+						return want(kind)
+					}
+					return "C:" + class(shared.ValidateCompatibility(o))
+				}})
 			case 1:
 				ts = append(ts, thunk{"compat.object", func() string {
+					if reference {
+						return want(kind)
+					}
 					return "C:" + class(shared.Objects()["mid"].ValidateCompatibility(o.Objects()["mid"]))
 				}})
 			default:
-				ts = append(ts, thunk{"compat.reversed", func() string { return "C:" + class(o.ValidateCompatibility(shared)) }})
+				ts = append(ts, thunk{"compat.reversed", func() string {
+					if reference {
+						return want(kind)
+					}
+					return "C:" + class(o.ValidateCompatibility(shared))
+				}})
 			}
 		}
 		return ts, nil
